@@ -238,6 +238,15 @@ def run_impl(case):
     if case.get('repeat'):
         out2 = pyspec.run_glom(case)
         out['second_run_same'] = (out2.get('ok') == out.get('ok') and out2.get('raise') == out.get('raise') and out2['log'] == out['log'])
+    # the other public entry points: values passed through scope= (to the call, to the Spec, to both) are readable the same way
+    for entry in ('spec', 'spec-split', 'spec-own', 'glommer'):
+        if entry == 'glommer' and case.get('scope'):
+            continue                                   # Glommer.glom passes its own scope: no scope= of the caller's
+        o2 = pyspec.run_glom(case, entry)
+        if (o2.get('ok'), o2.get('raise'), o2['log']) != (out.get('ok'), out.get('raise'), out['log']):
+            out['entry_diff'] = 'entry point %s: %r / log %r, glom.glom: %r / log %r' % (
+                entry, o2.get('ok', o2.get('raise')), o2['log'], out.get('ok', out.get('raise')), out['log'])
+            break
     return out
 
 
@@ -251,6 +260,8 @@ def direct_oracle(case, out):
         return 'the second evaluation of the same spec differs from the first (state survived the call)'
     if out.get('scope_untouched') is False:
         return "the caller's scope mapping was modified"
+    if out.get('entry_diff'):
+        return out['entry_diff']
     return None
 
 
